@@ -94,7 +94,7 @@ Definition parse_key (n : fname) : option N :=
 (* ---- system calls ---- *)
 
 Inductive syscall :=
-| Creat (n : fname)                 (* openat(n, O_RDWR|O_CREAT|O_TRUNC|O_CLOEXEC, 0666) *)
+| Creat (n : fname)                 (* openat(n, O_CREAT|O_TRUNC with O_RDWR or O_WRONLY, any mode) *)
 | Write (n : fname) (b : list N)    (* the bytes the kernel accepted, appended at the offset *)
 | Fsync (n : fname)
 | Close (n : fname)
